@@ -441,9 +441,183 @@ Proof.
       * inversion E; subst. split; auto. now apply bh_inv_nil.
 Qed.
 
+(* ---------------------------------------------------------------- locks (eval_record_spine) *)
+
+Definition lock_of (h : heap) (l : loc) : option bool := option_map locked (nth_error h l).
+
+(* the cells of [h] keep their lock flag in [h'], the cells allocated since are unlocked *)
+Definition same_locks (h h' : heap) : Prop :=
+  length h <= length h' /\
+  forall l, (l < length h -> lock_of h' l = lock_of h l) /\
+            (length h <= l -> lock_of h' l = None \/ lock_of h' l = Some false).
+
+Lemma same_locks_refl h : same_locks h h.
+Proof.
+  split; auto. intros l. split; auto. intros L. left. unfold lock_of.
+  now rewrite (proj2 (nth_error_None h l) L).
+Qed.
+
+Lemma same_locks_trans h1 h2 h3 : same_locks h1 h2 -> same_locks h2 h3 -> same_locks h1 h3.
+Proof.
+  intros [L1 H1] [L2 H2]. split; [lia|]. intros l. split.
+  - intros L. rewrite <- (proj1 (H1 l) L). apply (proj1 (H2 l)). lia.
+  - intros L. destruct (lt_dec l (length h2)) as [Lt|Ge].
+    + rewrite (proj1 (H2 l) Lt). apply (proj2 (H1 l) L).
+    + apply (proj2 (H2 l)). lia.
+Qed.
+
+Lemma same_locks_app h cs : (forall c, In c cs -> locked c = false) -> same_locks h (h ++ cs).
+Proof.
+  intros Hcs. split; [rewrite app_length; lia|]. intros l. unfold lock_of. split.
+  - intros L. now rewrite nth_error_app1.
+  - intros L. rewrite nth_error_app2 by lia. destruct (nth_error cs (l - length h)) as [c|] eqn:E; auto.
+    right. cbn. f_equal. apply Hcs. eapply nth_error_In; eauto.
+Qed.
+
+Lemma same_locks_upd h i f : (forall c, locked (f c) = locked c) -> same_locks h (upd_nth h i f).
+Proof.
+  intros Hf. split; [now rewrite upd_nth_length|]. intros l. unfold lock_of.
+  rewrite nth_error_upd_nth. split.
+  - intros L. destruct (Nat.eqb i l); auto. destruct (nth_error h l); cbn; auto. now rewrite Hf.
+  - intros L. left. rewrite (proj2 (nth_error_None h l) L). now destruct (Nat.eqb i l).
+Qed.
+
+Lemma step_same_locks c c' : step c = Next c' -> same_locks (hp c) (hp c').
+Proof.
+  intros E.
+  assert (R : ret c = Next c' -> same_locks (hp c) (hp c')).
+  { unfold ret. destruct (stack c) as [|[a|l|o c2|o v1|t e|f] s]; try discriminate.
+    - intros X; inversion X; subst; cbn. now apply same_locks_upd.
+    - intros X; inversion X; subst; apply same_locks_refl.
+    - destruct (binop_eval o v1 (ctrl c)); intros X; inversion X; subst; apply same_locks_refl.
+    - destruct (fst (ctrl c)) as [[]|]; try discriminate.
+      destruct b; intros X; inversion X; subst; apply same_locks_refl.
+    - destruct (fst (ctrl c)) as [|fl]; try discriminate.
+      destruct (assoc fl f); intros X; inversion X; subst; apply same_locks_refl. }
+  assert (A1 : forall x, same_locks (hp c) (hp c ++ [new_cell x])).
+  { intros x. apply same_locks_app. intros c0 [<-|[]]. reflexivity. }
+  unfold step in E. destruct (fst (ctrl c)) as [t|fl]; auto.
+  destruct t; auto; try discriminate.
+  - destruct (assoc (snd (ctrl c)) x); try discriminate. unfold enter in E.
+    destruct (nth_error (hp c) l) as [cl|]; try discriminate.
+    destruct (st cl); try discriminate.
+    + destruct (no_update_needed (cur cl)); inversion E; subst; cbn; now apply same_locks_upd.
+    + inversion E; subst; apply same_locks_refl.
+  - destruct (stack c) as [|[a| | | | |] s] eqn:Es; try (apply R; exact E).
+    inversion E; subst; cbn. apply A1.
+  - inversion E; subst; apply same_locks_refl.
+  - inversion E; subst; cbn. apply A1.
+  - inversion E; subst; cbn. apply A1.
+  - inversion E; subst; apply same_locks_refl.
+  - inversion E; subst; apply same_locks_refl.
+  - unfold alloc_rec in E. inversion E; subst; cbn. apply same_locks_app.
+    intros x0 I. apply in_map_iff in I. destruct I as (fe & <- & _). reflexivity.
+  - inversion E; subst; apply same_locks_refl.
+Qed.
+
+Lemma run_same_locks fuel : forall c r c' k, run fuel c = (r, c', k) -> same_locks (hp c) (hp c').
+Proof.
+  induction fuel as [|n IH]; intros c r c' k E; cbn in E.
+  - inversion E; subst. apply same_locks_refl.
+  - destruct (step c) as [c1| |e] eqn:Es.
+    + eapply same_locks_trans; [eapply step_same_locks; eauto|eauto].
+    + inversion E; subst. apply same_locks_refl.
+    + inversion E; subst. apply same_locks_refl.
+Qed.
+
+Lemma unwind_same_locks s : forall h, same_locks h (unwind s h).
+Proof.
+  induction s as [|fr s IH]; intros h; cbn; [apply same_locks_refl|].
+  destruct fr; auto. eapply same_locks_trans; [|apply IH]. now apply same_locks_upd.
+Qed.
+
+Lemma clean_upd_locked h l b : clean h -> clean (upd_nth h l (set_locked b)).
+Proof.
+  intros C l' B. apply (C l'). apply blackholed_upd in B. destruct (Nat.eqb l l'); auto.
+Qed.
+
+Lemma lock_of_upd_locked h l b cl :
+  nth_error h l = Some cl -> lock_of (upd_nth h l (set_locked b)) l = Some b.
+Proof. intros E. unfold lock_of. now rewrite (nth_error_upd_nth_eq _ _ _ _ E). Qed.
+
+Lemma lock_of_upd_other h l l' f : l <> l' -> lock_of (upd_nth h l f) l' = lock_of h l'.
+Proof. intros N. unfold lock_of. now rewrite nth_error_upd_nth_neq. Qed.
+
+(* [lock l; ... ; unlock l] restores the locks *)
+Lemma relock_same_locks h l cl h2 :
+  nth_error h l = Some cl -> locked cl = false ->
+  same_locks (upd_nth h l (set_locked true)) h2 ->
+  same_locks h (upd_nth h2 l (set_locked false)).
+Proof.
+  intros E LK [L H]. rewrite upd_nth_length in L. split; [now rewrite upd_nth_length|].
+  assert (Ll : l < length h) by (apply nth_error_Some; congruence).
+  intros l'. rewrite upd_nth_length in H. split.
+  - intros Lt. destruct (Nat.eq_dec l l') as [<-|N].
+    + destruct (nth_error h2 l) as [c2|] eqn:E2.
+      * rewrite (lock_of_upd_locked _ _ _ _ E2). unfold lock_of. now rewrite E, <- LK.
+      * apply nth_error_None in E2. lia.
+    + rewrite lock_of_upd_other by auto. rewrite (proj1 (H l') Lt). now apply lock_of_upd_other.
+  - intros Ge. rewrite lock_of_upd_other by lia. apply (proj2 (H l') Ge).
+Qed.
+
+Lemma same_locks_unlocked h h' : same_locks h h' -> unlocked h -> unlocked h'.
+Proof.
+  intros [L H] U l c E. destruct (lt_dec l (length h)) as [Lt|Ge].
+  - pose proof (proj1 (H l) Lt) as Q. unfold lock_of in Q. rewrite E in Q.
+    destruct (nth_error h l) as [c0|] eqn:E0; cbn in Q; inversion Q. rewrite H1. eauto.
+  - destruct (proj2 (H l) ltac:(lia)) as [Q|Q]; unfold lock_of in Q; rewrite E in Q; cbn in Q; congruence.
+Qed.
+
+(* eval_record_spine: every abandoned run is unwound at once, every lock taken is released *)
+Lemma spine_good d : forall k h l r h' k',
+  clean h -> spine_with true unwind d k h l = (r, (h', k')) -> clean h' /\ same_locks h h'.
+Proof.
+  induction d as [|d IH]; intros k h l r h' k' C E; cbn in E.
+  - inversion E; subst. split; auto using same_locks_refl.
+  - destruct (nth_error h l) as [cl|] eqn:Ecl.
+    2:{ inversion E; subst. split; auto using same_locks_refl. }
+    destruct (locked cl) eqn:LK.
+    { inversion E; subst. split; auto using same_locks_refl. }
+    set (h1 := upd_nth h l (set_locked true)) in *.
+    assert (C1 : clean h1) by now apply clean_upd_locked.
+    assert (FIN : forall r0 h2 k2,
+              clean h2 -> same_locks h1 h2 ->
+              (r0, (upd_nth h2 l (set_locked false), k2)) = (r, (h', k')) ->
+              clean h' /\ same_locks h h').
+    { intros r0 h2 k2 C2 S2 X. inversion X; subst. split; [now apply clean_upd_locked|].
+      eapply relock_same_locks; eauto. }
+    destruct (run k (mkcfg (ptr l) [] h1)) as [[r0 cf] k0] eqn:Er.
+    pose proof (run_same_locks _ _ _ _ _ Er) as S1. cbn [hp] in S1.
+    pose proof (run_clean _ _ _ _ _ _ C1 Er) as I1.
+    destruct r0 as [w|e|].
+    2:{ cbn in E. eapply FIN; [| |exact E].
+        - apply (unwind_clean_thm _ _ I1).
+        - eapply same_locks_trans; [exact S1|apply unwind_same_locks]. }
+    2:{ cbn in E. eapply FIN; [| |exact E].
+        - apply (unwind_clean_thm _ _ I1).
+        - eapply same_locks_trans; [exact S1|apply unwind_same_locks]. }
+    pose proof (run_val_clean _ _ _ _ _ _ C1 Er) as C0.
+    destruct (fst w) as [t|fl].
+    + destruct t; cbn in E; (eapply FIN; [exact C0|exact S1|exact E]).
+    + match type of E with context [?F fl (hp cf) k0] => set (fields := F) in * end.
+      assert (FL : forall fl0 h3 k3 r3 h4 k4,
+                 clean h3 -> fields fl0 h3 k3 = (r3, (h4, k4)) -> clean h4 /\ same_locks h3 h4).
+      { clear E FIN. intros fl0. induction fl0 as [|[f lf] fl0 IHfl]; intros h3 k3 r3 h4 k4 C3 E3; cbn in E3.
+        - inversion E3; subst. split; auto using same_locks_refl.
+        - destruct (spine_with true unwind d k3 h3 lf) as [r5 [h5 k5]] eqn:E5.
+          destruct (IH _ _ _ _ _ _ C3 E5) as [C5 S5].
+          destruct r5 as [dv|e|]; try (inversion E3; subst; split; auto; fail).
+          destruct (fields fl0 h5 k5) as [r6 [h6 k6]] eqn:E6.
+          destruct (IHfl _ _ _ _ _ C5 E6) as [C6 S6].
+          destruct r6 as [ds|e|]; inversion E3; subst; split; eauto using same_locks_trans. }
+      destruct (fields fl (hp cf) k0) as [r3 [h4 k4]] eqn:E3.
+      destruct (FL _ _ _ _ _ _ C0 E3) as [C4 S4].
+      destruct r3 as [ds|e|]; cbn in E; (eapply FIN; [exact C4|eapply same_locks_trans; eauto|exact E]).
+Qed.
+
 Theorem sess_step_good s i : good_heap (sheap s) -> good_heap (sheap (fst (sess_step s i))).
 Proof.
-  intros [C U]. destruct i as [x e|k e|k e|k x path]; unfold sess_step, sess_step_with.
+  intros [C U]. destruct i as [x e|k e|k e|k x path|k e]; unfold sess_step, sess_step_with, sess_step_gen.
   - cbn [fst sheap]. split.
     + intros l B. apply (C l). revert B. apply blackholed_app. intros c [<-|[]]. apply new_cell_not_bh.
     + intros l c E. destruct (lt_dec l (length (sheap s))).
@@ -459,6 +633,15 @@ Proof.
   - destruct (query k (sheap s) (CTm (Var x), stop s) path) as [r [[fr h] k']] eqn:Eq. cbn [fst sheap].
     destruct (query_bh _ _ _ _ _ _ _ _ (conj C U) Eq) as (I & U1).
     destruct (unwind_clean_thm _ _ I) as (C' & _ & _ & _ & U'). split; auto.
+  - destruct (spine_with true unwind (S k) k (sheap s ++ [new_cell (CTm e, stop s)]) (length (sheap s)))
+      as [r [h k']] eqn:Es. cbn [fst sheap].
+    assert (C0 : clean (sheap s ++ [new_cell (CTm e, stop s)])).
+    { intros l B. apply (C l). revert B. apply blackholed_app. intros c [<-|[]]. apply new_cell_not_bh. }
+    destruct (spine_good _ _ _ _ _ _ _ C0 Es) as [C1 S1]. split; auto.
+    eapply same_locks_unlocked; [exact S1|].
+    intros l c E. destruct (lt_dec l (length (sheap s))).
+    + rewrite nth_error_app1 in E by auto. eauto.
+    + rewrite nth_error_app2 in E by lia. apply nth_error_In in E. destruct E as [<-|[]]. reflexivity.
 Qed.
 
 Lemma sess_run_fst s h :
